@@ -5,7 +5,6 @@ import (
 	"go/ast"
 	"go/token"
 	"go/types"
-	"sort"
 
 	"siotcheck/kit"
 )
@@ -158,35 +157,6 @@ func c17AnalyseSliceEncoder(c *kit.Ctx, enc *c17Encoder) *c17EncModel {
 		})
 		return hit
 	}
-	var constOf func(e ast.Expr) (int64, bool)
-	constOf = func(e ast.Expr) (int64, bool) {
-		if v, ok := kit.ConstInt(info, e); ok {
-			return v, true
-		}
-		if be, ok := ast.Unparen(e).(*ast.BinaryExpr); ok {
-			a, ok1 := constOf(be.X)
-			b, ok2 := constOf(be.Y)
-			if ok1 && ok2 {
-				switch be.Op {
-				case token.ADD:
-					return a + b, true
-				case token.SUB:
-					return a - b, true
-				case token.MUL:
-					return a * b, true
-				}
-			}
-			return 0, false
-		}
-		if id, ok := ast.Unparen(e).(*ast.Ident); ok {
-			if o := kit.ObjOf(info, id); o != nil {
-				if def := c12SingleDef(f, o); def != nil {
-					return kit.ConstInt(info, def)
-				}
-			}
-		}
-		return 0, false
-	}
 	var byteParams, strParams []types.Object
 	for _, p := range f.Params() {
 		if b, ok := p.Type().Underlying().(*types.Basic); ok {
@@ -210,122 +180,9 @@ func c17AnalyseSliceEncoder(c *kit.Ctx, enc *c17Encoder) *c17EncModel {
 	problem := func(format string, a ...any) {
 		em.problems = append(em.problems, fmt.Sprintf(format, a...))
 	}
+	tl := &c17Tiler{f: f, em: em, buf: enc.buf, byteParams: byteParams, strParams: strParams}
+	constOf, tiles, fixedObject := tl.constOf, tl.tiles, tl.fixedObject
 	sumPos := token.NoPos
-	// tiles: the segments that fill the fixed-size byte object o (the zeroed
-	// head of the packet, a [N]byte array, a make([]byte, N) local) by
-	// top-level `o[k] = x` and `copy(o[a:b], src)` statements.
-	tiles := func(o types.Object, length int64, what string) []c17Seg {
-		type region struct {
-			lo, hi int64
-			role   string
-			call   *ast.CallExpr
-		}
-		var rs []region
-		for _, st := range f.Body.List {
-			switch y := st.(type) {
-			case *ast.AssignStmt:
-				if len(y.Lhs) != 1 || len(y.Rhs) != 1 || y.Tok != token.ASSIGN {
-					continue
-				}
-				ix, ok := ast.Unparen(y.Lhs[0]).(*ast.IndexExpr)
-				if !ok || !isObj(ix.X, o) {
-					continue
-				}
-				k, okk := constOf(ix.Index)
-				if !okk {
-					problem("store into %s at non-constant offset %s", what, f.Str(ix.Index))
-					continue
-				}
-				r := region{lo: k, hi: k + 1}
-				if isOneOf(y.Rhs[0], byteParams) != nil {
-					r.role = "seq"
-				}
-				rs = append(rs, r)
-			case *ast.ExprStmt:
-				call, ok := ast.Unparen(y.X).(*ast.CallExpr)
-				if !ok || len(call.Args) != 2 {
-					continue
-				}
-				if b, isB := kit.Callee(info, call).(*types.Builtin); !isB || b.Name() != "copy" {
-					continue
-				}
-				dst := ast.Unparen(call.Args[0])
-				lo, hi := int64(0), length
-				ok1, ok2 := true, true
-				if se, isSl := dst.(*ast.SliceExpr); isSl && isObj(se.X, o) {
-					if se.Low != nil {
-						lo, ok1 = constOf(se.Low)
-					}
-					if se.High != nil {
-						hi, ok2 = constOf(se.High)
-					}
-				} else if !isObj(dst, o) {
-					continue
-				}
-				if !ok1 || !ok2 || lo > hi {
-					problem("copy destination %s is not a constant window of %s", f.Str(dst), what)
-					continue
-				}
-				r := region{lo: lo, hi: hi, call: call}
-				for _, sp := range strParams {
-					if mentions(call.Args[1], sp) {
-						r.role = "subject"
-						em.subjField, em.subjParam = hi-lo, sp
-					}
-				}
-				rs = append(rs, r)
-			case *ast.IfStmt, *ast.ForStmt, *ast.RangeStmt, *ast.SwitchStmt, *ast.TypeSwitchStmt, *ast.SelectStmt, *ast.BlockStmt:
-				if o != enc.buf && mentions(st, o) {
-					problem("%s is touched inside %T, which is conditional or repeated", what, st)
-				}
-			}
-		}
-		sort.Slice(rs, func(i, j int) bool { return rs[i].lo < rs[j].lo })
-		var out []c17Seg
-		pos := int64(0)
-		for _, r := range rs {
-			if r.lo != pos {
-				problem("bytes [%d:%d) of %s are never written (they stay zero) or are written twice", pos, r.lo, what)
-			}
-			out = append(out, c17Seg{role: r.role, size: r.hi - r.lo, call: r.call})
-			pos = r.hi
-		}
-		if pos != length {
-			problem("%s has %d bytes but the stores cover %d", what, length, pos)
-		}
-		return out
-	}
-	// fixedObject: e is a fixed-size byte object prepared before being appended:
-	// `arr[:]` of a local [N]byte, or a local made with a constant length
-	fixedObject := func(e ast.Expr) (types.Object, int64, bool) {
-		e = ast.Unparen(e)
-		if se, ok := e.(*ast.SliceExpr); ok && se.Low == nil && se.High == nil && se.Max == nil {
-			e = ast.Unparen(se.X)
-		}
-		id, ok := e.(*ast.Ident)
-		if !ok {
-			return nil, 0, false
-		}
-		o := kit.ObjOf(info, id)
-		if o == nil {
-			return nil, 0, false
-		}
-		if arr, ok := o.Type().Underlying().(*types.Array); ok {
-			if b, ok := arr.Elem().Underlying().(*types.Basic); ok && b.Kind() == types.Uint8 {
-				return o, arr.Len(), true
-			}
-		}
-		if def := c12SingleDef(f, o); def != nil {
-			if dc, ok := ast.Unparen(def).(*ast.CallExpr); ok && len(dc.Args) == 2 {
-				if b, ok := kit.Callee(info, dc).(*types.Builtin); ok && b.Name() == "make" {
-					if n, ok := constOf(dc.Args[1]); ok {
-						return o, n, true
-					}
-				}
-			}
-		}
-		return nil, 0, false
-	}
 	headLen := int64(-1)
 	sumSeen := false
 	sumAppended := 0
@@ -371,7 +228,7 @@ func c17AnalyseSliceEncoder(c *kit.Ctx, enc *c17Encoder) *c17EncModel {
 							em.marshalArg = mt
 							em.segs = append(em.segs, c17Seg{role: "payload", size: -1, call: call})
 						} else if o, n, ok := fixedObject(call.Args[1]); ok {
-							em.segs = append(em.segs, tiles(o, n, "the prepared field "+o.Name())...)
+							em.segs = append(em.segs, tiles(o, n, "the prepared field "+o.Name(), call.Pos())...)
 						} else if dc, isCall := c17DefCall(f, call.Args[1]); isCall {
 							if n, g, gp, ok := c17SubjectFieldHelper(f, dc, strParams); ok {
 								em.subjField, em.subjParam, em.guardFn = n, gp, g
@@ -451,7 +308,7 @@ func c17AnalyseSliceEncoder(c *kit.Ctx, enc *c17Encoder) *c17EncModel {
 	}
 	var head []c17Seg
 	if headLen > 0 {
-		head = tiles(enc.buf, headLen, "the packet head")
+		head = tiles(enc.buf, headLen, "the packet head", token.NoPos)
 	}
 	if sumSeen {
 		em.sumAfter = len(head) + sumAppended
